@@ -20,122 +20,14 @@ import subprocess
 import sys
 import time
 
-VERIF = os.path.dirname(os.path.abspath(__file__))
+VERIF = os.path.dirname(os.path.abspath(__file__))  # also in engines.py
 HARNESS = os.path.join(VERIF, "harness")
 REPO = "/repo"
 NCPU = min(16, os.cpu_count() or 1)
 sys.path.insert(0, VERIF)
 
-MIRIFLAGS = "-Zmiri-disable-stacked-borrows -Zmiri-permissive-provenance -Zmiri-disable-isolation"
-
-ENV_BASE = dict(os.environ)
-ENV_BASE["CARGO_NET_OFFLINE"] = "true"
-ENV_BASE.pop("RUSTFLAGS", None)
-
-# ---------------------------------------------------------------- engines ----
-# name -> (cargo args for build, env overrides, target dir, path of binary or None for miri)
-ENGINES = {
-    "dev": dict(tool="stable", profile="dev", features=True),
-    "rel": dict(tool="stable", profile="release", features=True),
-    "nd-dev": dict(tool="stable", profile="dev", features=False),
-    "nd-rel": dict(tool="stable", profile="release", features=False),
-    "asan": dict(tool="asan", profile="release", features=True),
-    "miri": dict(tool="miri", profile="dev", features=True),
-    "miri-rel": dict(tool="miri", profile="release", features=True),
-}
-
-
-def target_dir(engine):
-    e = ENGINES[engine]
-    if e["tool"] == "miri":
-        return os.path.join(VERIF, "target-miri")
-    if e["tool"] == "asan":
-        return os.path.join(VERIF, "target-asan")
-    return os.path.join(VERIF, "target-" + ("nd" if not e["features"] else "std"))
-
-
-def engine_env(engine):
-    env = dict(ENV_BASE)
-    e = ENGINES[engine]
-    if e["tool"] == "asan":
-        env["RUSTFLAGS"] = "-Zsanitizer=address -Cforce-frame-pointers=yes"
-        env["ASAN_OPTIONS"] = "halt_on_error=1:abort_on_error=1:detect_leaks=1:allocator_may_return_null=1"
-    if e["tool"] == "miri":
-        env["MIRIFLAGS"] = MIRIFLAGS
-    return env
-
-
-def cargo_base(engine):
-    e = ENGINES[engine]
-    cmd = ["cargo"]
-    if e["tool"] in ("asan", "miri"):
-        cmd.append("+nightly")
-    return cmd
-
-
-def build_cmd(engine):
-    e = ENGINES[engine]
-    cmd = cargo_base(engine)
-    if e["tool"] == "miri":
-        # `miri run` builds; the build step proper is a run that exits at once
-        cmd += ["miri", "run"]
-    else:
-        cmd += ["build"]
-    cmd += ["--manifest-path", os.path.join(HARNESS, "Cargo.toml"), "--target-dir", target_dir(engine), "--offline", "-q"]
-    if e["profile"] == "release":
-        cmd.append("--release")
-    if not e["features"]:
-        cmd.append("--no-default-features")
-    if e["tool"] == "asan":
-        cmd += ["--target", "x86_64-unknown-linux-gnu"]
-    if e["tool"] == "miri":
-        cmd += ["--", "NOOP"]
-    return cmd
-
-
-def binary(engine):
-    e = ENGINES[engine]
-    prof = "debug" if e["profile"] == "dev" else "release"
-    if e["tool"] == "asan":
-        return os.path.join(target_dir(engine), "x86_64-unknown-linux-gnu", prof, "mb2mon")
-    return os.path.join(target_dir(engine), prof, "mb2mon")
-
-
-def run_cmd(engine, args):
-    e = ENGINES[engine]
-    if e["tool"] == "miri":
-        cmd = cargo_base(engine) + ["miri", "run", "--manifest-path", os.path.join(HARNESS, "Cargo.toml"),
-                                    "--target-dir", target_dir(engine), "--offline", "-q"]
-        if e["profile"] == "release":
-            cmd.append("--release")
-        return cmd + ["--"] + args + ["--trace"]
-    extra = ["--placement", "heap"] if e["tool"] == "asan" else []
-    return [binary(engine)] + args + extra
-
-
-_built = set()
-
-
-def build(engine, log=None):
-    """(Re)build one harness configuration against /repo's current tree."""
-    if engine in _built:
-        return True, ""
-    # keep the lock file in sync with the repository's
-    try:
-        src = os.path.join(REPO, "Cargo.lock")
-        dst = os.path.join(HARNESS, "Cargo.lock")
-        if not os.path.exists(dst):
-            shutil.copy(src, dst)
-    except OSError:
-        pass
-    cmd = build_cmd(engine)
-    p = subprocess.run(cmd, env=engine_env(engine), cwd=HARNESS, stdout=subprocess.PIPE, stderr=subprocess.STDOUT, text=True)
-    out = p.stdout
-    ok = p.returncode == 0 or (ENGINES[engine]["tool"] == "miri" and "unknown property/driver NOOP" in out)
-    if ok:
-        _built.add(engine)
-    return ok, out
-
+from engines import *  # noqa: F401,F403,E402
+from engines import ENGINES, build, run_cmd, engine_env, target_dir
 
 # ------------------------------------------------------------------ plans ----
 from plans import PLANS, RULES, ASSUMPTIONS, LEVEL_NOTES  # noqa: E402
@@ -166,6 +58,7 @@ class ShardResult:
         self.crashes = []  # dicts
         self.inconclusive = []  # strings
         self.tblocks = {}  # C08: block -> hash
+        self.benign = 0  # transient dangling reference in cast (Miri), see run_shard
         self.lines = 0
 
 
@@ -209,6 +102,8 @@ def run_shard(job):
             if line.startswith("V "):
                 try:
                     v = json.loads(line[2:])
+                    if base_args[0] != prop:
+                        v["sig"] = base_args[0] + ":" + v.get("sig", "?")
                     v["engine"] = engine
                     v["args"] = base_args + ["--shard", f"{shard}/{nshards}"]
                     res.violations.append(v)
@@ -233,13 +128,17 @@ def run_shard(job):
         # abnormal end: find the witness case
         case = None
         kind = None
-        m = re.search(r"CRASH sig=(\d+) case=(\d+)", out)
+        pos = None
+        m = re.search(r"CRASH sig=(\d+) case=(\d+) pos=(\d+)", out)
         if m:
             kind = f"signal-{m.group(1)}"
             case = int(m.group(2))
+            pos = int(m.group(3))
         bs = re.findall(r"^B (\d+)$", err, re.M)
+        ps = re.findall(r"^P (\d+)$", err, re.M)
         if case is None and bs:
             case = int(bs[-1])
+            pos = int(ps[-1]) if ps else None
         detail = ""
         mm = MIRI_ERR.search(err)
         ma = ASAN_ERR.search(err)
@@ -260,18 +159,39 @@ def run_shard(job):
             else:
                 res.inconclusive.append(f"{engine} shard {shard}/{nshards}: exit {rc} without summary: {err[-400:]}")
                 return res
+        # Miri's validity check fires when `DynSizedStructure::cast` forms the typed
+        # reference *before* its size assertion panics and that (never used, never
+        # returned) reference reaches past the allocation. No byte is read and nothing
+        # is handed out, so no property is violated (DESIGN section 5): count it, skip
+        # the rest of this case and go on.
+        benign = False
+        if mm and "encountered a dangling reference" in mm.group(2):
+            fr = re.search(r"stack backtrace:\s*0: ([^\n]*)", detail)
+            if fr and re.search(r"DynSizedStructure::<[^\n]*>::cast::<", fr.group(1)):
+                benign = True
+        if benign and pos is not None:
+            res.benign += 1
+            restarts += 1
+            if restarts > 40:
+                res.inconclusive.append(f"{engine} shard {shard}/{nshards}: >40 restarts, rest of shard not explored")
+                return res
+            frm = pos + 1
+            continue
         if case is None or case == 18446744073709551615:
             res.inconclusive.append(f"{engine} shard {shard}/{nshards}: {kind} outside any case: {err[-300:]}")
             return res
         site = first_repo_frame(detail) if detail else "?"
         res.crashes.append(dict(property=prop, engine=engine, kind=kind, case=case, site=site,
-                                sig=f"crash:{kind}@{site}", detail=detail[-2500:],
+                                sig=(base_args[0] + ":" if base_args[0] != prop else "") + f"crash:{kind}@{site}", detail=detail[-2500:],
                                 args=base_args + ["--shard", f"{shard}/{nshards}"]))
         restarts += 1
         if restarts > 20:
             res.inconclusive.append(f"{engine} shard {shard}/{nshards}: >20 restarts, rest of shard not explored")
             return res
-        frm = case + 1
+        if pos is None or pos >= 18446744073709551615:
+            res.inconclusive.append(f"{engine} shard {shard}/{nshards}: witness case {case} without position; rest of shard not explored")
+            return res
+        frm = pos + 1
 
 
 def shard_ids(procs, density, seed):
@@ -341,6 +261,7 @@ def check(prop, tier, seed):
     samples = []
     evaluations = 0
     overflow = 0
+    benign_total = 0
     for (engine, args, s, n, _, _, _), r in results:
         pe = per_engine.setdefault(engine + ":" + args[0], dict(evaluations=0, cases_run=0, shards=0, counters={}, cut_by_budget=0, cases_total=0, nshards=n))
         for sm in r.summaries:
@@ -357,6 +278,7 @@ def check(prop, tier, seed):
                 if len(samples) < 8 and x not in samples:
                     samples.append(x)
         hashes |= r.hashes
+        benign_total += r.benign
         violations += r.violations + r.crashes
         inconclusive += r.inconclusive
     # C08-style cross-configuration comparison
@@ -403,6 +325,7 @@ def check(prop, tier, seed):
         engines_used=sorted(usable),
         inconclusive=inconclusive,
         known_findings_observed=sorted(known_hits.keys()),
+        miri_transient_dangling_reference_in_cast=benign_total,
         new_violation_signatures=[s for s, _ in new_viol],
     )
     if PLANS[prop].get("exhaustive_domain"):
